@@ -249,7 +249,7 @@ def cmd_check_c20(args):
     profile = get_profile("paths")
     try:
         for vi, v in enumerate(variants):
-            if time.time() - t0 > budget and vi > 0:
+            if time.time() - t0 > 2 * budget and vi > 0:   # soft budget: a loaded machine must not silently drop variants
                 break
             desc = confgen.make_variant(v)
             pkg = confgen.emit(desc, os.path.join(tmp, "v%d" % v))
@@ -260,7 +260,7 @@ def cmd_check_c20(args):
                 for pname in C20_PROFILES:
                     seeds = O.run_seeds(base_seed, "C20-%s-%d" % (pname, v), cfg["runs_per_profile"])
                     vbad = []
-                    r = O.batch(pool, pname, seeds, tier, max(5.0, budget / max(1, len(variants))), stop_on_violation=args.mutant_mode,
+                    r = O.batch(pool, pname, seeds, tier, max(20.0, budget / max(1, len(variants))), stop_on_violation=args.mutant_mode,
                                 on_result=lambda m, vb=vbad: vb.append(m) if m.get("violations") else None, max_bad=3, bad=vbad)
                     for x in r:
                         x["variant"] = v
